@@ -27,9 +27,48 @@ CLAIMED = {
     "C04": ("exhaustive enumeration of function family x forward method x backward solver x parameter placement x "
             "gradient order, implicit-function-theorem reference (unrolled Newton steps) on each execution",
             "bounded-exhaustive lattice over the real implicit backward pass"),
+    "C05": ("exhaustive enumeration of method x M x operator kind x batch pattern x n x neig x mode (and spelling) x "
+            "spectrum class (separated, clustered, exactly degenerate) x davidson options, plus svd shape x k x mode; "
+            "dense Cholesky-reduced eigh / svd reference on each execution",
+            "every structural combination is executed; selection of the wrong end of the spectrum, normalisation "
+            "and batch defects live at combinations of mode x M x batch x degeneracy"),
+    "C06": ("exhaustive enumeration of method x backward solver x M x operator kind x n x spectrum class (incl. "
+            "exact degeneracy) x neig at cluster boundaries x parametrisation x dtype x order, gauge-invariant losses, "
+            "contour-integral (resolvent) reference that stays smooth through degeneracy",
+            "bounded-exhaustive lattice over the real implicit backward pass of symeig / svd"),
+    "C07": ("call-programmed right-hand sides (environment answers chosen by the harness: unit vectors per call, "
+            "elementary weights of every rooted tree up to order 5) extract the Butcher tableau and the orders of "
+            "the embedded pairs from real solve_ivp runs; plus the complete lattice method x ODE family x time grid "
+            "x tolerance x dtype against closed-form flows",
+            "the space of programmed answers (one per stage / per rooted tree) and the family x grid lattice are "
+            "enumerated completely"),
     "C08": ("exhaustive enumeration of ODE family x forward method x backward method x time grid x requires-grad "
             "subset x cotangent x order; matrix-exponential / closed-form sensitivities as reference",
             "bounded-exhaustive lattice over the real adjoint integration"),
+    "C09": ("exhaustive differential enumeration: functional x method x 14 representations of the same mathematical "
+            "function x requires-grad subset x gradient order, each compared with the pure-function representation",
+            "all representations x all functionals are executed and compared (no hand-written expected values)"),
+    "C10": ("crash-point enumeration (an exception injected at EVERY evaluation of the user's function / operator "
+            "product in every phase: forward, backward, graph-recording backward, double backward, debug pre-check) "
+            "plus explicit-state search of the push/pop/lock/debug protocol of PureFunction and LinearOperator "
+            "parameter substitution against a stack reference model",
+            "every (scenario, phase, k) crash point of the fault-free run is re-executed from scratch with one "
+            "fault; the protocol search replays every event history to the depth bound on fresh objects"),
+    "C13": ("rule extraction with call-programmed integrands + exhaustive enumeration of family x n x backward n' x "
+            "limit forms (number / tensor / requires-grad tensor / infinite) x function kind x unused tensors x order "
+            "x loss, reference = autograd through the extracted rule",
+            "bounded-exhaustive lattice over the real backward quadrature"),
+    "C14": ("interpolation-matrix extraction through linearity in y (unit vectors) for every method x boundary "
+            "condition x extrapolation mode x grid x number of knots x sample/query ordering x y placement x batch, "
+            "against scipy CubicSpline / numpy.interp",
+            "the lattice is enumerated completely and the whole linear map is compared, not sampled values"),
+    "C15": ("weight-matrix extraction through linearity in y for every method x boundary condition x grid x number "
+            "of samples x every (rank, dim) position x keepdim, against antiderivatives of the interpolant",
+            "all axis positions (positive and negative) and sizes are enumerated"),
+    "C16": ("call-programmed samplers / log-densities / integrands (logged evaluation points) + exhaustive "
+            "enumeration of sampler x (nsamples, nburnout) x output kind x parameter placement x unused tensors x "
+            "order x loss; reference = explicit weighted sample mean and its autograd derivatives on the logged samples",
+            "bounded-exhaustive lattice; deterministic samplers make the estimator exactly reproducible"),
     "C11": ("explicit-state exploration: every operator expression tree up to the leaf bound x every product, and "
             "every instantiation order of small operator class hierarchies (class-level flag cache = explored state), "
             "dense-matrix reference model on every step",
